@@ -707,10 +707,11 @@ def pool_tolerant(call, rec):
 # ------------------------------------------------------------------ generators
 DYADIC_PREC = [(1, 0), (1, 1), (1, 2), (1, 3), (3, 3), (5, 4), (1, 5), (3, 1)]
 DECIMAL_PREC = [0.01, 0.05, 0.1, 0.3, 0.001, 0.25, 0.7, 1e-3]
-FLAVOURS = ["plain", "ties", "big", "f32", "inf", "ninf", "both", "mixed"]
+FLAVOURS = ["plain", "ties", "big", "f32", "inf", "ninf", "both", "mixed", "below", "below1", "above1"]
 SPECIALS = {
     "plain": [], "ties": [], "big": [1e40, -1e40], "f32": [3.4028235e38, F32MAX, -3.4028235e38, 3.5e38, -F32MAX],
     "inf": [float("inf"), 1e40], "ninf": [float("-inf"), 3.5e38], "both": [float("inf"), float("-inf")],
+    "below": [-1e40, float("-inf")], "below1": [-3.5e38], "above1": [3.5e38],  # float32 overflow on one side only
     "mixed": [1e40, float("inf"), -1e40, F32MAX, 1e308, -1e308],
 }
 
